@@ -7,6 +7,7 @@ package interp
 import (
 	"bufio"
 	"fmt"
+	"math/big"
 	"io"
 	"os"
 	"os/exec"
@@ -206,7 +207,7 @@ func (p *Portfolio) Errors() []string {
 	return out
 }
 
-func (p *Portfolio) Check(assertions []*Term, vars []*Term) (SatResult, Model) {
+func (p *Portfolio) Check(assertions []*Term, vars []*Term) (SatResult, *Model) {
 	for i := 0; i < len(p.Names); i++ {
 		if i >= len(p.solvers) {
 			lp := ""
@@ -233,7 +234,7 @@ func (p *Portfolio) Check(assertions []*Term, vars []*Term) (SatResult, Model) {
 
 // Check decides satisfiability of the conjunction of assertions.  When sat
 // and vars is non-empty, the model for vars is returned.
-func (s *Solver) Check(assertions []*Term, vars []*Term) (SatResult, Model) {
+func (s *Solver) Check(assertions []*Term, vars []*Term) (SatResult, *Model) {
 	var b strings.Builder
 	for _, a := range assertions {
 		s.define(a, &b)
@@ -269,7 +270,7 @@ func (s *Solver) Check(assertions []*Term, vars []*Term) (SatResult, Model) {
 	case strings.Contains(resp, "(error"):
 		s.Errors = append(s.Errors, resp)
 	}
-	var model Model
+	var model *Model
 	if res == Sat && len(vars) > 0 {
 		var g strings.Builder
 		g.WriteString("(get-value (")
@@ -304,9 +305,9 @@ func (s *Solver) Check(assertions []*Term, vars []*Term) (SatResult, Model) {
 }
 
 // parseValues parses "((name val) (name val) ...)".
-func parseValues(resp string, vars []*Term) (Model, error) {
+func parseValues(resp string, vars []*Term) (*Model, error) {
 	toks := tokenize(resp)
-	m := Model{}
+	m := NewModel()
 	// Expect: ( ( name val ) ... ) where val may be an s-expr like (- 5) or (_ bv5 8)
 	pos := 0
 	next := func() string {
@@ -343,11 +344,19 @@ func parseValues(resp string, vars []*Term) (Model, error) {
 			}
 			val = append(val, t)
 		}
+		if vars[i].sort.W < 0 {
+			bi, err := parseIntValue(val)
+			if err != nil {
+				return nil, err
+			}
+			m.I[vars[i].name] = bi
+			continue
+		}
 		v, err := parseValue(val, vars[i].sort)
 		if err != nil {
 			return nil, err
 		}
-		m[vars[i].name] = v
+		m.B[vars[i].name] = v
 	}
 	return m, nil
 }
@@ -409,4 +418,24 @@ func parseValue(val []string, sort Sort) (uint64, error) {
 		u, err := strconv.ParseUint(val[0], 10, 64)
 		return u, err
 	}
+}
+
+func parseIntValue(val []string) (*big.Int, error) {
+	if len(val) == 0 {
+		return nil, fmt.Errorf("empty int value")
+	}
+	neg := false
+	tok := val[0]
+	if tok == "(" && len(val) >= 3 && val[1] == "-" {
+		neg = true
+		tok = val[2]
+	}
+	b, ok := new(big.Int).SetString(tok, 10)
+	if !ok {
+		return nil, fmt.Errorf("bad int value %v", val)
+	}
+	if neg {
+		b.Neg(b)
+	}
+	return b, nil
 }
